@@ -555,6 +555,15 @@ def _partition_ok(sets):
     return True
 
 
+def random_gdef(rng):
+    """arbitrary GDEF class data over the alphabet 1..6: any class for any glyph (also 'comp' and none), attachment
+    classes and mark glyph sets that also name non-mark glyphs (they must be ignored for those)"""
+    cls = [[g, c] for g in range(1, 7) for c in [rng.choice(["base", "lig", "mark", "mark", "comp", None])] if c]
+    att = [[g, rng.randint(1, 2)] for g in range(1, 7) if rng.random() < 0.5]
+    sets = [sorted(rng.sample(range(1, 7), rng.randint(0, 4))) for _ in range(rng.randint(0, 3))]
+    return {"present": True, "class": cls, "att": att, "sets": sets}
+
+
 # ---- random cases (V mode) ----------------------------------------------------------------------
 def random_case(rng, cid, maxlen=14):
     g = lambda: rng.randint(1, 6)
@@ -607,5 +616,5 @@ def random_case(rng, cid, maxlen=14):
     if any(st["k"] == "ctx" for st in ll[0]["subs"]):
         order = [1] + [o for o in order if o != 1]
     inp = [g() for _ in range(rng.randint(0, maxlen))]
-    return {"id": cid, "family": "random", "order": order, "gdef": rng.choice([GDEF_FULL, GDEF_FULL, GDEF_NONE]),
+    return {"id": cid, "family": "random", "order": order, "gdef": rng.choice([GDEF_FULL, GDEF_FULL, GDEF_NONE, None, None]) or random_gdef(rng),
             "ll": ll, "inputs": [inp]}
